@@ -7,6 +7,7 @@ import (
 	"math/rand"
 	"runtime"
 	"sync"
+	"sync/atomic"
 	"time"
 
 	"github.com/hashicorp/eventlogger"
@@ -274,3 +275,75 @@ func RunRegistryHistory(id int, seed int64) *RHistory {
 }
 
 var _ = fmt.Sprint
+
+// slowReopen is a node whose first Reopen waits until it is released.
+type slowReopen struct {
+	hn.Node
+	calls   atomic.Int64
+	fail    atomic.Bool
+	entered chan struct{}
+	release chan struct{}
+	block   bool
+}
+
+func (n *slowReopen) Reopen() error {
+	c := n.calls.Add(1)
+	if n.block && c == 1 {
+		n.entered <- struct{}{}
+		<-n.release
+	}
+	if n.fail.Load() {
+		return hn.ErrReopen
+	}
+	return nil
+}
+
+// ReopenOverlap: a Reopen that starts while another one is still walking the pipelines reaches every node as well
+// (each call of Broker.Reopen is its own walk), and reports a failing node.
+func ReopenOverlap() []Mismatch {
+	var mms []Mismatch
+	for _, failing := range []bool{false, true} {
+		b, _ := eventlogger.NewBroker()
+		f := &slowReopen{Node: hn.Node{ID: "f", Kind: eventlogger.NodeTypeFilter, Beh: hn.Pass}}
+		m := &slowReopen{Node: hn.Node{ID: "m", Kind: eventlogger.NodeTypeFormatter, Beh: hn.Pass}}
+		s := &slowReopen{Node: hn.Node{ID: "s", Kind: eventlogger.NodeTypeSink, Beh: hn.Pass}, block: true, entered: make(chan struct{}, 1), release: make(chan struct{})}
+		b.RegisterNode("f", f)
+		b.RegisterNode("m", m)
+		b.RegisterNode("s", s)
+		b.RegisterPipeline(eventlogger.Pipeline{PipelineID: "p", EventType: "t", NodeIDs: []eventlogger.NodeID{"f", "m", "s"}})
+		first := make(chan error, 1)
+		go func() { first <- b.Reopen(context.Background()) }()
+		select {
+		case <-s.entered:
+		case <-time.After(10 * time.Second):
+			return append(mms, Mismatch{Props: []string{"C20"}, What: "Broker.Reopen did not reach the sink of the registered pipeline", Expected: "reached", Observed: "not within 10 s"})
+		}
+		// the first walk is parked in the sink's Reopen; something has changed for the nodes it has passed
+		fBefore, sBefore := f.calls.Load(), s.calls.Load()
+		f.fail.Store(failing)
+		second := make(chan error, 1)
+		go func() { second <- b.Reopen(context.Background()) }()
+		var err2 error
+		select {
+		case err2 = <-second:
+		case <-time.After(10 * time.Second):
+			close(s.release)
+			mms = append(mms, Mismatch{Props: []string{"C20", "C12"}, What: "a second Broker.Reopen did not return while the first one was inside a node's Reopen", Expected: "returns", Observed: "blocked"})
+			continue
+		}
+		close(s.release)
+		<-first
+		vec := fmt.Sprintf("second Reopen while the first is parked in the sink (filter failing: %v)", failing)
+		if failing {
+			if err2 == nil || !errors.Is(err2, hn.ErrReopen) {
+				mms = append(mms, Mismatch{Props: []string{"C20"}, What: vec + ": the filter's Reopen fails for this call, the error must carry it", Expected: "error", Observed: fmt.Sprint(err2)})
+			}
+			continue
+		}
+		if err2 != nil || f.calls.Load() <= fBefore || s.calls.Load() <= sBefore {
+			mms = append(mms, Mismatch{Props: []string{"C20"}, What: vec + ": nil means every node was reopened by this call", Expected: "filter and sink reopened again, nil",
+				Observed: fmt.Sprintf("err=%v filter reopens %d->%d sink reopens %d->%d", err2, fBefore, f.calls.Load(), sBefore, s.calls.Load())})
+		}
+	}
+	return mms
+}
